@@ -29,7 +29,7 @@ func ifBodyKernel(rel, fn, cond, leanName, params, resultTy, tail string, sp Spe
 
 // caseBodyKernel translates the body of the clause `case <caseExpr>:` of the unique `switch <tag>` in fn that has such a clause,
 // up to (not including) the first statement whose source starts with `until` ("" = the whole clause); reaching that point is `tail`.
-func caseBodyKernel(rel, fn, tag, caseExpr, until, leanName, params, resultTy, prelude, tail string, sp Spec) func() string {
+func caseBodyKernel(rel, fn, tag, caseExpr, until, leanName, params, resultTy, prelude, tail string, sp Spec, opaque ...string) func() string {
 	return func() string {
 		fd := mustFunc(rel, fn)
 		var bodies [][]ast.Stmt
@@ -66,17 +66,75 @@ func caseBodyKernel(rel, fn, tag, caseExpr, until, leanName, params, resultTy, p
 			body = body[:cut]
 		}
 		t := &tr{sp: sp, file: parseFile(rp(rel))}
+		// locals of the enclosing function that the clause only reads through Repl keys (`fieldType`): a local defined as one of them
+		// stands for it
+		for _, o := range opaque {
+			if t.opaque == nil {
+				t.opaque = map[string]bool{}
+			}
+			t.opaque[o] = true
+		}
 		return fmt.Sprintf("/-- generated from %s func %s: `switch %s { case %s: … }`%s -/\ndef %s %s : %s :=\n  %s%s\n", rel, fn, tag, caseExpr,
 			map[bool]string{true: " up to `" + until + "…`", false: ""}[until != ""], leanName, params, resultTy, prelude, t.block(body, tail, "  "))
 	}
+}
+
+// tlsCheckFunc: the range check of tls.go, found by its signature — (fieldInfo, uint64, string) error, as a method of fieldInfo or as
+// a function — whatever it is called. Returned with the names of its three inputs and the key a call of it has for InitCondByCall.
+func tlsCheckFunc(rel string) (*ast.FuncDecl, []string, string) {
+	file := parseFile(rp(rel))
+	var hits []*ast.FuncDecl
+	var names [][]string
+	for _, d := range file.Decls {
+		fd, ok := d.(*ast.FuncDecl)
+		if !ok || fd.Body == nil || fd.Type.Results == nil || fd.Type.Results.NumFields() != 1 || src(fd.Type.Results.List[0].Type) != "error" {
+			continue
+		}
+		var tys, ns []string
+		add := func(fl *ast.FieldList) {
+			if fl == nil {
+				return
+			}
+			for _, f := range fl.List {
+				if len(f.Names) == 0 {
+					tys, ns = append(tys, src(f.Type)), append(ns, "_")
+				}
+				for _, n := range f.Names {
+					tys, ns = append(tys, src(f.Type)), append(ns, n.Name)
+				}
+			}
+		}
+		add(fd.Recv)
+		add(fd.Type.Params)
+		if strings.Join(tys, ",") == "fieldInfo,uint64,string" {
+			hits, names = append(hits, fd), append(names, ns)
+		}
+	}
+	if len(hits) != 1 {
+		panic(bail{fmt.Sprintf("%s: expected exactly one (fieldInfo, uint64, string) error function or method, found %d", rel, len(hits))})
+	}
+	key := hits[0].Name.Name
+	if hits[0].Recv != nil {
+		key = "." + key
+	}
+	return hits[0], names[0], key
 }
 
 func init() {
 	f := "tls/tls.go"
 	register(genFile{name: "Tls", imports: []string{"CTV.Basic.I64"}, units: []unit{
 		{"byteCount", funcKernel(f, "byteCount", "byteCount", "(x_ : Int)", "Int", Spec{Kind: "u64", Ret: "tuple"})},
-		{"fieldInfo.check", funcKernel(f, "fieldInfo.check", "fieldInfoCheck", "(count_ minlen_ maxlen_ val_ : Int)", "Bool",
-			Spec{Kind: "u64", Ret: "errbool", Vars: map[string]string{"i.count": "count_", "i.minlen": "minlen_", "i.maxlen": "maxlen_"}})},
+		{"fieldInfo.check", func() string {
+			fd, names, _ := tlsCheckFunc(f)
+			t := &tr{sp: Spec{Kind: "u64", Ret: "errbool", Vars: map[string]string{"i.count": "count_", "i.minlen": "minlen_", "i.maxlen": "maxlen_"}}, file: parseFile(rp(f))}
+			for i, canon := range []string{"i", "val"} {
+				if names[i] != canon && names[i] != "_" {
+					t.alias(names[i], ast.NewIdent(canon))
+				}
+			}
+			return fmt.Sprintf("/-- generated from %s: the range check, signature (fieldInfo, uint64, string) error (func %s) -/\ndef fieldInfoCheck (count_ minlen_ maxlen_ val_ : Int) : Bool :=\n  %s\n",
+				f, fd.Name.Name, t.block(fd.Body.List, "none", "  "))
+		}},
 		// the checks fieldTagToFieldInfo applies to the collected info after the clause loop (true = the info is accepted)
 		{"fieldTagToFieldInfo.final", ifBodyKernel(f, "fieldTagToFieldInfo", "info != nil", "tagFinalChecks",
 			"(selEmpty countSet_ : Bool) (count_ minlen_ maxlen_ val_ : Int)", "Bool", "true",
@@ -84,39 +142,46 @@ func init() {
 				Repl: map[string]string{`info.selector == ""`: "selEmpty", `info.selector != ""`: "(!selEmpty)"},
 				Vars: map[string]string{"info.count": "count_", "info.countSet": "countSet_", "info.minlen": "minlen_", "info.maxlen": "maxlen_", "info.val": "val_"}})},
 		// whole bodies of the non-reflective entry points: the order of the tests and what each hands back (0 nothing, 1 the value / rest)
-		{"readVarUint", handlerKernel(f, "readVarUint", "readVarUintBody", "(noSize short checkFails : Bool)", "Nat × Bool", "", "(0, false)",
-			Spec{Kind: "u64", Lazy: true, Ret: "statusstate", Status: map[string]int{"0": 0, "result": 1},
-				IgnoreLHS: []string{"result"},
-				InitCond:  map[string]string{"err := info.check(result, info.name) ; err != nil": "checkFails"},
-				Repl:      map[string]string{"info == nil || !info.countSet": "noSize", "len(data) < int(info.count)": "short"}})},
-		// parseField, the vector case up to the element loop: the order of "length prefix readable and in range", "declared length
-		// fits the remaining input", the allocation (v.Set(reflect.MakeSlice…)) and the []byte fast path.  (status, error?, allocated?)
-		{"parseField.slice", caseBodyKernel(f, "parseField", "v.Kind()", "reflect.Slice", "for ", "parseSliceHead",
-			"(prefixBad tooLong isBytes : Bool)", "Nat × Bool × Bool", "let alloc_ := false\n  ", "((2 : Nat), false, alloc_)",
-			Spec{Kind: "u64", Lazy: true, Ret: "statusstate", Status: map[string]int{"offset": 0}, StateVars: []string{"alloc_"},
-				IgnoreLHS: []string{"offset", "rest", "sliceType", "inner", "single", "datalen"},
-				Ignore:    []string{"copyBytes"},
-				ErrCalls:  map[string]string{"readVarUint": "prefixBad"},
-				Effects:   map[string]string{"v.Set": "alloc_ := true"},
-				Repl:      map[string]string{"varlen > uint64(len(rest))": "tooLong", "fieldType.Elem().Kind() == reflect.Uint8": "isBytes"}})},
+		{"readVarUint", func() string {
+			_, _, checkKey := tlsCheckFunc(f)
+			return handlerKernel(f, "readVarUint", "readVarUintBody", "(infoNil noCount short checkFails : Bool)", "Nat × Bool", "", "(0, false)",
+				Spec{Kind: "u64", Lazy: true, Ret: "statusstate", Status: map[string]int{"0": 0, "result": 1}, NegRepl: true, ErrFlow: true,
+					IgnoreLHS: []string{"result"}, PureCalls: []string{"int", "uint", "uint64"},
+					InitCondByCall: map[string]string{checkKey: "checkFails"},
+					Repl:           map[string]string{"info == nil": "infoNil", "!info.countSet": "noCount", "len(data) < int(info.count)": "short"}})()
+		}},
+		// parseField, the vector case: the order of "length prefix readable and in range", "declared length fits the remaining input", the
+		// allocation (v.Set(reflect.MakeSlice…)), the []byte fast path and the element loop (elemFails: some iteration of it returns —
+		// an element that does not parse, or one of zero width).  (status, error?, allocated?)
+		{"parseField.slice", caseBodyKernel(f, "parseField", "v.Kind()", "reflect.Slice", "", "parseSliceBody",
+			"(prefixBad tooLong isBytes elemFails : Bool)", "Nat × Bool × Bool", "let alloc_ := false\n  ", "((0 : Nat), false, alloc_)",
+			Spec{Kind: "u64", Lazy: true, Inline: true, Ret: "statusstate", Status: map[string]int{"offset": 0}, StateVars: []string{"alloc_"}, NegRepl: true, ErrFlow: true, DropThrough: true,
+				IgnoreLHS:     []string{"offset", "rest", "inner", "single", "datalen"},
+				Ignore:        []string{"copyBytes"},
+				PureCalls:     []string{".Elem", ".Kind", "int", "uint64"},
+				ErrCalls:      map[string]string{"readVarUint": "prefixBad"},
+				Effects:       map[string]string{"v.Set": "alloc_ := true"},
+				LoopAnyReturn: map[string]string{"*": "elemFails"},
+				Repl: map[string]string{"varlen > uint64(len(rest))": "tooLong", "varlen > uint64(len(rest[info.count:]))": "tooLong",
+					"fieldType.Elem().Kind() == reflect.Uint8": "isBytes"}}, "fieldType")},
 		{"parseField.array", caseBodyKernel(f, "parseField", "v.Kind()", "reflect.Array", "", "parseArrayBody",
 			"(tooLong notBytes : Bool)", "Nat × Bool", "", "((0 : Nat), false)",
-			Spec{Kind: "u64", Lazy: true, Ret: "statusstate", Status: map[string]int{"offset": 0},
-				IgnoreLHS: []string{"offset", "inner", "datalen"}, Ignore: []string{"copyBytes"},
-				Repl: map[string]string{"datalen > len(rest)": "tooLong", "fieldType.Elem().Kind() != reflect.Uint8": "notBytes"}})},
+			Spec{Kind: "u64", Lazy: true, Ret: "statusstate", Status: map[string]int{"offset": 0}, NegRepl: true, ErrFlow: true,
+				IgnoreLHS: []string{"offset", "inner", "datalen"}, Ignore: []string{"copyBytes"}, PureCalls: []string{".Elem", ".Kind"},
+				Repl: map[string]string{"datalen > len(rest)": "tooLong", "fieldType.Elem().Kind() != reflect.Uint8": "notBytes"}}, "fieldType")},
 		{"parseField.enum", caseBodyKernel(f, "parseField", "v.Kind()", "enumType.Kind()", "", "parseEnumBody",
 			"(prefixBad : Bool)", "Nat × Bool", "", "((0 : Nat), false)",
-			Spec{Kind: "u64", Lazy: true, Ret: "statusstate", Status: map[string]int{"offset": 0},
+			Spec{Kind: "u64", Lazy: true, Ret: "statusstate", Status: map[string]int{"offset": 0}, ErrFlow: true,
 				IgnoreLHS: []string{"offset"}, Ignore: []string{"v.SetUint"},
 				ErrCalls: map[string]string{"readVarUint": "prefixBad"}})},
 		{"UnmarshalWithParams", handlerKernel(f, "UnmarshalWithParams", "unmarshalWithParamsBody", "(tagBad parseFails : Bool)", "Nat × Bool", "", "(0, false)",
-			Spec{Kind: "u64", Lazy: true, Ret: "statusstate", Status: map[string]int{"nil": 0, "b[offset:]": 1},
+			Spec{Kind: "u64", Lazy: true, Inline: true, Ret: "statusstate", Status: map[string]int{"nil": 0, "*": 1}, ErrFlow: true,
 				IgnoreLHS: []string{"v"},
 				ErrCalls:  map[string]string{"fieldTagToFieldInfo": "tagBad", "parseField": "parseFails"}})},
 		{"MarshalWithParams", handlerKernel(f, "MarshalWithParams", "marshalWithParamsBody", "(tagBad marshalFails : Bool)", "Nat × Bool", "", "(0, false)",
-			Spec{Kind: "u64", Lazy: true, Ret: "statusstate", Status: map[string]int{"nil": 0, "out.Bytes()": 1},
-				IgnoreLHS: []string{"v", "out"},
-				ErrCalls:  map[string]string{"fieldTagToFieldInfo": "tagBad"},
-				InitCond:  map[string]string{"err := marshalField(&out, v, info) ; err != nil": "marshalFails"}})},
+			Spec{Kind: "u64", Lazy: true, Inline: true, Ret: "statusstate", Status: map[string]int{"nil": 0, "*": 1}, ErrFlow: true,
+				IgnoreLHS:      []string{"v", "out"},
+				ErrCalls:       map[string]string{"fieldTagToFieldInfo": "tagBad"},
+				InitCondByCall: map[string]string{"marshalField": "marshalFails"}})},
 	}})
 }
